@@ -37,12 +37,27 @@ every concurrent run there is `Circuit.garble` of that call's own tape and key
 (the function the C01 theorems are about); with C01,
 `C17_concurrent_garbling_evaluates_correctly`.
 
+GC histories.  "A garbling stays valid until it is released" is about the DATA
+of a garbling (`g.Wires`, `g.Gates`, slices into the pooled scratch), whoever
+holds the `*Garbled` header; the repository's own callers keep the slices and
+drop the header.  `Model/PoolGC.lean` extends the histories by `dropHeader` and
+by a collector that may run every registered finalizer;
+`C17_gc_put_only_by_release_or_error_path` (the code registers none: the only
+transitions that `Put` are `Release` and the error path of `Garble`),
+`C17_retained_garbling_valid` (retained data = the single-goroutine result, along
+every further history) and the negation witness
+`C17_autorelease_breaks_retained_validity` (a finalizer whose effect is `Release`
+breaks it: the theorems need "no Put without an explicit Release by the owner").
+`checks/C17.py` generates such histories on the real code (mode `gchist`, stress
+kind `gcmix`) and replays their event logs (`D`, `K` events) on this model.
+
 What is modelled rather than proved: `atomic.Pointer` and `sync.Pool` are
 linearizable objects (one step per operation) and establish happens-before
 between a `Put` and the `Get` that returns the item; Go-memory-model data races
 are observed only at run time (race detector in `checks/C17.py`).
 -/
 import MpcVerif.Proofs.PoolGarble
+import MpcVerif.Proofs.PoolGC
 import MpcVerif.Props.C01
 
 namespace Mpc.Pool
@@ -340,6 +355,159 @@ example (j : GJob L) : ∃ σ : State (GMem L) (GJob L),
   exact ⟨σ, reachable_runSched _ true _ σ _ .init hs, hh⟩
 
 end C01link
+
+/-! ### Histories with dropped headers and garbage collections
+
+"A garbling stays valid until it is released" is about the DATA of a garbling —
+`g.Wires`, `g.Gates`, slices into the pooled scratch — whoever holds the
+`*Garbled` header: the repository's own callers keep the slices and drop the
+header.  `Model/PoolGC.lean` adds to the histories of the pool model the events
+`dropHeader h` (the caller keeps only the slices; no method can be called on `h`
+any more) and the collector, which may run the finalizer of any unreachable
+header.  `GReachable P false γ` ranges over every such history of the code as it
+is: `Circuit.Garble` attaches no finalizer, so the collector has NO transition
+(`C17_gc_put_only_by_release_or_error_path`, first part) — the fact
+`checks/C17.py` re-extracts on every run as the effect sets of `Garble` and
+`Release` (no escape into `runtime.SetFinalizer` / `AddCleanup`) and the
+Put-path count of `Garble`. -/
+
+/-- **The only transitions that `Put`.**  In a GC history of the code as it is
+(1) the collector never runs anything of a garbling; (2) the free list of a pool
+object grows only by the `Put` of an explicit `Release` (`relPut`) and by the
+error path of `Garble` (`abort`); (3) dropping a header changes nothing in the
+pool state. -/
+theorem C17_gc_put_only_by_release_or_error_path (P : Params Mem Job) (γ γ' : GState Mem Job)
+    (t : Tid) (a : GAction Job) (hs : gstep? P false γ t a = some γ') :
+    (∀ h, a ≠ .finalize h) ∧
+    ((∃ q, (γ.σ.free q).length < (γ'.σ.free q).length) → a = .base .relPut ∨ a = .base .abort) ∧
+    (∀ h, a = .dropHeader h → γ'.σ = γ.σ) := by
+  refine ⟨?_, ?_, ?_⟩
+  · intro h e
+    rw [e, gstep_false_finalize] at hs
+    cases hs
+  · rintro ⟨q, hq⟩
+    rcases gstep_false_cases P _ _ t a hs with ⟨b, e, hb, _, _⟩ | ⟨hh, H, x, _, hσ, _⟩
+    · rcases free_grows_only_by_put P _ _ t b hb q hq with e' | e'
+      · left; rw [e, e']
+      · right; rw [e, e']
+    · rw [hσ] at hq; exact absurd hq (Nat.lt_irrefl _)
+  · intro h e
+    rcases gstep_false_cases P _ _ t a hs with ⟨b, e', _⟩ | ⟨hh, H, x, _, hσ, _⟩
+    · rw [e] at e'; cases e'
+    · exact hσ
+
+/-- Non-vacuity: a history in which all three kinds of step that touch a free
+list occur (an aborted Garble, a Release, a reuse) around a dropped header. -/
+example :
+    (match grunSched (Mem := Nat) (Job := Nat) traceParams false (ginit traceParams)
+        [(0, .base (.callGarble 7)), (0, .base .load), (0, .base .cas), (0, .base .getNew),
+         (0, .base .write), (0, .base .write), (0, .base .publish), (0, .dropHeader 0),
+         (1, .base (.callGarble 8)), (1, .base .load), (1, .base .getNew), (1, .base .write),
+         (1, .base .abort),
+         (1, .base (.callGarble 9)), (1, .base .load), (1, .base (.getFree 1)), (1, .base .write),
+         (1, .base .write), (1, .base .publish),
+         (1, .base (.relBegin 1)), (1, .base .relPut), (1, .base .relClear)] with
+     | some γ => γ.retained 0 == some 0 && γ.σ.free 0 == [1] && retainedVal γ 0 == some 7
+     | none => false) = true := by decide
+
+/-- **A garbling whose header was dropped stays valid, for every GC history.**
+In every state of every history with header drops and collections:
+(1) the slices retained from a dropped garbling `h` show exactly the
+single-goroutine result `seqGarble` of the call that produced it, and `h` still
+owns the scratch they alias; (2) along EVERY further history — any number of
+collections, Garble / Release calls of other sessions on the same circuit, reuse
+of every released scratch — the garbling stays dropped-but-owned, the retained
+data does not change, and its scratch is never in a free list, never held by an
+in-progress Garble, never behind another handle (it is stranded: "skipping
+Release just forgoes reuse"); (3) for garblings whose header is kept the
+statement of `C17_garble_isolated` carries over unchanged to GC histories. -/
+theorem C17_retained_garbling_valid (P : Params Mem Job) (γ : GState Mem Job)
+    (hr : GReachable P false γ) :
+    (∀ h x, γ.retained h = some x → ∃ H, γ.σ.handle h = some H ∧ H.owned = some x ∧
+        retainedVal γ h = some (seqGarble P H.job H.init)) ∧
+    (∀ γ' h x, GSteps P false γ γ' → γ.retained h = some x →
+        γ'.retained h = some x ∧ retainedVal γ' h = retainedVal γ h ∧
+        (∀ q, x ∉ γ'.σ.free q) ∧ (∀ t, ¬ HeldBy γ'.σ t x) ∧ (∀ h', OwnedBy γ'.σ h' x → h' = h)) ∧
+    (∀ h H x, γ.σ.handle h = some H → H.owned = some x → γ.σ.mem x = seqGarble P H.job H.init) := by
+  have valid : ∀ (δ : GState Mem Job), GReachable P false δ → ∀ h x, δ.retained h = some x →
+      ∃ H, δ.σ.handle h = some H ∧ H.owned = some x ∧
+        retainedVal δ h = some (seqGarble P H.job H.init) := by
+    intro δ hδ h x hx
+    obtain ⟨H, hH, ho, _⟩ := rinv_reachable P δ hδ h x hx
+    have hi := inv_reachable P _ (greachable_proj P δ hδ)
+    refine ⟨H, hH, ho, ?_⟩
+    simp only [retainedVal, hx, Option.map_some]
+    rw [hi.ownMem h H x hH ho]
+  refine ⟨valid γ hr, ?_, (inv_reachable P _ (greachable_proj P γ hr)).ownMem⟩
+  intro γ' h x hs hx
+  obtain ⟨H, hH, ho, hv⟩ := valid γ hr h x hx
+  obtain ⟨hx', hH'⟩ := retained_gsteps P γ γ' hr hs h x H hx hH
+  have hr' := greachable_gsteps P false γ γ' hr hs
+  have hi' := inv_reachable P _ (greachable_proj P γ' hr')
+  obtain ⟨H2, hH2, _, hv'⟩ := valid γ' hr' h x hx'
+  rw [hH'] at hH2; cases hH2
+  refine ⟨hx', by rw [hv, hv'], ?_, ?_, ?_⟩
+  · intro q hq
+    exact hi'.freeH q x h H hq hH' ho
+  · rintro t ⟨j, p, m0, k, ht⟩
+    exact hi'.heldH t j p x m0 k h H ht hH' ho
+  · rintro h' ⟨H3, hH3, ho3⟩
+    exact hi'.ownHH h' h H3 H x hH3 hH' ho3 ho
+
+/-- Non-vacuity: a reachable GC state with a dropped, unreleased garbling. -/
+example : ∃ γ : GState Nat Nat, GReachable traceParams false γ ∧ γ.retained 0 = some 0 := by
+  have h : ∃ γ, grunSched traceParams false (ginit traceParams)
+      [(0, .base (.callGarble 7)), (0, .base .load), (0, .base .cas), (0, .base .getNew),
+       (0, .base .write), (0, .base .write), (0, .base .publish), (0, .dropHeader 0)] = some γ ∧
+      γ.retained 0 = some 0 := ⟨_, rfl, rfl⟩
+  obtain ⟨γ, hs, hx⟩ := h
+  exact ⟨γ, greachable_grunSched traceParams false _ γ _ .init hs, hx⟩
+
+/-- The history of the witness below: garbling 0 (job 7) is published, its header
+dropped; the collector runs its finalizer (= `Release`, by the runtime's
+goroutine 9); another session's Garble (job 8) gets the scratch back from the
+pool and garbles into it. -/
+def autoReleaseSched : List (Tid × GAction Nat) :=
+  [(0, .base (.callGarble 7)), (0, .base .load), (0, .base .cas), (0, .base .getNew),
+   (0, .base .write), (0, .base .write), (0, .base .publish), (0, .dropHeader 0),
+   (9, .finalize 0),
+   (1, .base (.callGarble 8)), (1, .base .load), (1, .base (.getFree 0)),
+   (1, .base .write), (1, .base .write), (1, .base .publish)]
+
+/-- **Why the theorems need "no Put without an explicit Release by the owner".**
+Add an auto-release transition (`fin = true`: a finalizer on the header whose
+effect is `Release`) and `C17_retained_garbling_valid` / the validity part of
+`C17_garble_isolated` fail: after the history `autoReleaseSched` the slices
+retained from garbling 0, which was never released by its owner, show the result
+of ANOTHER call (8, not `seqGarble … 7 = 7`), and the scratch they alias is
+owned by handle 1.  The step that broke it is a `Put` that is neither `relPut`
+of an owner's `Release` nor `abort`: right after `finalize 0` scratch 0 is in the
+free list while the retained slices still alias it. -/
+theorem C17_autorelease_breaks_retained_validity :
+    (∃ γ : GState Nat Nat, GReachable traceParams true γ ∧ γ.retained 0 = some 0 ∧
+      retainedVal γ 0 = some 8 ∧ seqGarble traceParams 7 traceParams.fresh = 7 ∧
+      OwnedBy γ.σ 1 0) ∧
+    (∃ γ : GState Nat Nat, GReachable traceParams true γ ∧ γ.retained 0 = some 0 ∧
+      0 ∈ γ.σ.free 0) := by
+  constructor
+  · have h : ∃ γ, grunSched traceParams true (ginit traceParams) autoReleaseSched = some γ ∧
+        γ.retained 0 = some 0 ∧ retainedVal γ 0 = some 8 ∧
+        seqGarble traceParams 7 traceParams.fresh = 7 ∧ OwnedBy γ.σ 1 0 :=
+      ⟨_, rfl, rfl, rfl, rfl, ⟨_, rfl, rfl⟩⟩
+    obtain ⟨γ, hs, h1, h2, h3, h4⟩ := h
+    exact ⟨γ, greachable_grunSched traceParams true _ γ _ .init hs, h1, h2, h3, h4⟩
+  · have h : ∃ γ, grunSched traceParams true (ginit traceParams) (autoReleaseSched.take 9) = some γ ∧
+        γ.retained 0 = some 0 ∧ 0 ∈ γ.σ.free 0 :=
+      ⟨_, rfl, rfl, by decide⟩
+    obtain ⟨γ, hs, h1, h2⟩ := h
+    exact ⟨γ, greachable_grunSched traceParams true _ γ _ .init hs, h1, h2⟩
+
+/-- With the code as it is the same history is not a run: the collector step
+does not exist. -/
+example : grunSched traceParams false (ginit traceParams) autoReleaseSched = none := by decide
+/-- … and without the collector step the other session cannot get scratch 0. -/
+example : grunSched traceParams false (ginit traceParams)
+    (autoReleaseSched.take 8 ++ autoReleaseSched.drop 9) = none := by decide
 
 /-! ### The usage-contract limit (see the header) -/
 
